@@ -175,7 +175,18 @@ func traceSyncCheck(r *Recording, ev []traceEvent) []string {
 	var bad []string
 	op := 0
 	dirty := map[int]bool{}
+	// only descriptors that are fdatasync'ed somewhere in the trace are WAL
+	// files; the Go runtime also write()s to its eventfd / wakeup pipe
+	walfd := map[int]bool{}
 	for _, e := range ev {
+		if e.sc == "fdatasync" {
+			walfd[e.fd] = true
+		}
+	}
+	for _, e := range ev {
+		if e.sc == "write" && e.mark < 0 && !walfd[e.fd] {
+			continue
+		}
 		switch {
 		case e.mark >= 0:
 			if op < len(r.Steps) && r.Steps[op].Synced && len(dirty) > 0 {
